@@ -69,7 +69,8 @@ def floors(tier):
     return {'evaluations': 20000, 'distinct_nontrivial': 3000, 'splits_checked': 50000, 'keyval_checked': 8000,
             'histkeys:sep': 6, 'hist:policy:first': 500, 'hist:policy:concatenate': 500, 'hist:policy:error': 500,
             'hist:policy:last': 500, 'repeated_keys_seen': 1000, 'keyval_second_call_on_same_list': 5000,
-            'keyval_default_values_used': 5000, 'all_arguments_info_checked': 1000, 'split_at_node_on_lists_with_none': 500, 'content_as_chars_checked': 500, 'keyval_callable_policy_calls': 1000, 'hist:keyval_default:list': 2000,
+            'keyval_default_values_used': 5000, 'all_arguments_info_checked': 1000, 'split_at_node_on_lists_with_none': 500, 'histkeys:keyval_separators': 2,
+            'histkeys:arginfo_constructor': 2, 'content_as_chars_checked': 500, 'keyval_callable_policy_calls': 1000, 'hist:keyval_default:list': 2000,
             'lists_with_none_entries': 2000, 'argument_info_checked': 4000,
             'double_group_same_delimiters': 200, 'double_group_other_delimiters': 200}
 
@@ -195,8 +196,12 @@ def check_split_at_node(s, nl, max_split, keep_separators, rec, skip_none=True):
     orig = live(nl)
     try:
         parts = nl.split_at_node(pred, keep_separators=keep_separators, max_split=max_split, skip_none=skip_none)
+        plain = nl.split_at_node(pred, keep_separators=keep_separators, max_split=max_split, skip_none=skip_none,
+                                 call_make_nodelist=False)
     except Exception as e:
         return 'split_at_node raised %s: %s' % (type(e).__name__, e)
+    if [[id(n) for n in p] for p in parts] != [[id(n) for n in p] for p in plain]:
+        return 'split_at_node(call_make_nodelist=False) returns other parts than with the walker\'s make_nodelist'
     # skip_none only decides whether None placeholders are dropped: with skip_none=False every one of them is still there
     n_none_in = sum(1 for n in nl if n is None)
     n_none_out = sum(1 for p in parts for n in p if n is None)
@@ -239,7 +244,7 @@ def check_split_at_node(s, nl, max_split, keep_separators, rec, skip_none=True):
 
 # ---------------------------------------------------------------- key-value model
 
-def model_keyval(s, nl, policy, extract):
+def model_keyval(s, nl, policy, extract, comma=',', eq='='):
     """Independent top-level scan.  Returns ordered list of (key, [value verbatim pieces]) or 'ERROR'."""
     items = []          # top-level: ('c', char, abs_pos) | ('n', node)
     for n in live(nl):
@@ -250,7 +255,7 @@ def model_keyval(s, nl, policy, extract):
             items.append(('n', n))
     parts = [[]]
     for it in items:
-        if it[0] == 'c' and it[1] == ',':
+        if it[0] == 'c' and it[1] == comma:
             parts.append([])
         else:
             parts[-1].append(it)
@@ -259,22 +264,22 @@ def model_keyval(s, nl, policy, extract):
     for part in parts:
         if not part:
             continue
-        eq = None
+        eqi = None
         for i, it in enumerate(part):
-            if it[0] == 'c' and it[1] == '=':
-                eq = i
+            if it[0] == 'c' and it[1] == eq:
+                eqi = i
                 break
-        keyitems = part if eq is None else part[:eq]
+        keyitems = part if eqi is None else part[:eqi]
         key = ''
         for it in keyitems:
             if it[0] == 'c':
                 key += it[1]
             else:
                 return None     # key is not a simple string: outside the quantifier
-        if eq is None:
+        if eqi is None:
             value = None
         else:
-            vitems = part[eq + 1:]
+            vitems = part[eqi + 1:]
             if not vitems:
                 # 'k=' : splitting at the equals sign (keep_empty off) yields the key alone, i.e. no value given
                 value = None
@@ -317,9 +322,9 @@ def default_value(kind):
     return nl, 'D{v}'
 
 
-def check_keyval(s, nl, policy, extract, rec, default=None, second_policy=None):
+def check_keyval(s, nl, policy, extract, rec, default=None, second_policy=None, seps=(',', '=')):
     before = canon.canon(nl)
-    err = check_keyval_once(s, nl, policy, extract, rec, default)
+    err = check_keyval_once(s, nl, policy, extract, rec, default, seps)
     if err:
         return err
     # the call must leave the list it was called on (and the caller's default value) as they were: the parsed tree is
@@ -335,18 +340,19 @@ def check_keyval(s, nl, policy, extract, rec, default=None, second_policy=None):
                 policy, got, dtext)
     if second_policy is not None:
         rec.monitor('keyval_second_call_on_same_list')
-        err = check_keyval_once(s, nl, second_policy, extract, rec, default)
+        err = check_keyval_once(s, nl, second_policy, extract, rec, default, seps)
         if err:
             return 'second call on the same node list (first call used policy %r): %s' % (policy, err)
     return None
 
 
-def check_keyval_once(s, nl, policy, extract, rec, default=None):
+def check_keyval_once(s, nl, policy, extract, rec, default=None, seps=(',', '=')):
     rec.monitor('keyval_checked')
     rec.hist('policy', policy)
     rec.hist('keyval_default', str(default))
     model_policy = {'callable-first': 'first', 'callable-last': 'last'}.get(policy, policy)
-    want = model_keyval(s, nl, model_policy, extract)
+    want = model_keyval(s, nl, model_policy, extract, seps[0], seps[1])
+    rec.hist('keyval_separators', seps[0] + seps[1])
     if want is None:
         rec.monitor('keyval_outside_quantifier')
         return None
@@ -358,8 +364,14 @@ def check_keyval_once(s, nl, policy, extract, rec, default=None):
             return result_keyvals[key] if policy == 'callable-first' else new_value
     dv, dtext = default_value(default)
     try:
+        import collections
+        kwx = {}
+        if tuple(seps) != (',', '='):
+            kwx = {'comma_sep_chars': seps[0], 'eq_sep_chars': seps[1], 'dict_type': collections.OrderedDict}
         kv = nl.parse_keyval_content(repeated_key_aggregate_action=action, extract_value_group_contents=extract,
-                                     default_value_nodelist=dv)
+                                     default_value_nodelist=dv, **kwx)
+        if kwx and not isinstance(kv, collections.OrderedDict):
+            return 'parse_keyval_content(dict_type=OrderedDict) returned a %s' % type(kv).__name__
     except ValueError as e:
         if want == 'ERROR':
             rec.monitor('repeated_keys_seen')
@@ -423,7 +435,8 @@ def check_arginfo(case, rec):
     for n in canon.walk(nl):
         if canon.kind(n) != 'macro' or n.macroname != 'opts' or n.nodeargd is None:
             continue
-        info = ParsedArgumentsInfo(node=n)
+        info = ParsedArgumentsInfo(node=n) if (n.pos + len(s)) % 3 else ParsedArgumentsInfo(parsed_arguments=n.nodeargd)
+        rec.hist('arginfo_constructor', 'node' if (n.pos + len(s)) % 3 else 'parsed_arguments')
         # the bulk accessor hands out the same argument nodes under the documented keys
         rec.monitor('all_arguments_info_checked')
         for req, wantkeys in ((None, [0, 1, 'main', 'options']), (['options'], ['options']), ([1], [1]),
@@ -547,7 +560,7 @@ def check_case(case, rec):
         err = check_split_at_node(s, nl, case['max_split'], case['keep_separators'], rec, case.get('skip_none', True))
     else:
         err = check_keyval(s, nl, case['policy'], case.get('extract', True), rec, case.get('default'),
-                           case.get('second_policy'))
+                           case.get('second_policy'), tuple(case.get('seps', (',', '='))))
     if err:
         rec.violation(case, '%s | source %r options %r' % (err, s, {k: v for k, v in case.items() if k != 's'}),
                       mech=what + ':' + err.split(':')[0][:40])
@@ -640,7 +653,8 @@ def run_shard(desc, rec):
                 rec.sample(s)
             for pi, policy in enumerate(('concatenate', 'first', 'last', 'error', 'callable-first', 'callable-last')):
                 rec.case()
-                case = {'s': s, 'what': 'keyval', 'policy': policy, 'extract': bool((i + len(policy)) % 2),
+                case = {'s': s if i % 4 != 3 else s.replace(',', ';').replace('=', ':'), 'what': 'keyval', 'policy': policy,
+                        'extract': bool((i + len(policy)) % 2), 'seps': [',', '='] if i % 4 != 3 else [';', ':'],
                         'default': (None, 'node', 'list')[(i + pi) % 3],
                         'second_policy': (None, 'first', 'concatenate', 'last')[(i // 3 + pi) % 4]}
                 if len(set(keys)) < len(keys):
